@@ -468,6 +468,9 @@ def body_decode(kind: int, path: str) -> bool:
         raise GopherExceptions.FileNotFound(selector, "stub", protocol)
 
     cfg = hx.DictConfig(True)
+    if kind == 1:
+        # a WAP prefix that selectors themselves may start with: it is removed from the front exactly once
+        cfg.set("protocols.wap.WAPProtocol", "waptop", "/a")
     hx.silence_logging()
     w = hx.ListWriter()
     srv = hx.make_server(cfg)
@@ -478,7 +481,7 @@ def body_decode(kind: int, path: str) -> bool:
         if kind == 0:
             p = http.HTTPProtocol("GET " + path + " HTTP/1.0\r\n", srv, hx.make_rh(False), hx.LineReader([]), w, cfg)
         elif kind == 1:
-            p = wap.WAPProtocol("GET /wap" + path + " HTTP/1.0\r\n", srv, hx.make_rh(False), hx.LineReader([]), w, cfg)
+            p = wap.WAPProtocol("GET /a" + path + " HTTP/1.0\r\n", srv, hx.make_rh(False), hx.LineReader([]), w, cfg)
         elif kind == 2:
             p = gemini.GeminiProtocol("gemini://h" + path + "\r\n", srv, hx.make_rh(True), None, w, cfg)
             # urlparse hashes/realizes its argument: contract stub returning the path component
